@@ -3,7 +3,7 @@ CONSTANTS
   Models = {}
   WorldKinds = {}
   AgentObjs = {}
-  Types = {"A", "B", "C"}
+  Types = {"A", "B", "C", "D"}
   TagVals = {}
   Serials = {}
   Coords = {}
@@ -11,6 +11,7 @@ CONSTANTS
   Leeways = {}
   Deviations = {}
   Variants = {"mech"}
+  Guests = FALSE
   TagTest = "isnone"
   BoxForm = "minmax"
 INVARIANT Accepted
